@@ -20,3 +20,21 @@ pub fn main(args: &[String]) {
         Err(_) => println!("PANIC"),
     }
 }
+
+/// Lex, parse, type-check and generate Rust for a source file through the public API; prints the generated Rust.
+pub fn emit_main(args: &[String]) {
+    let src = std::fs::read_to_string(&args[0]).expect("readable source file");
+    let r = std::panic::catch_unwind(|| {
+        let tokens = incan::lexer::lex(&src).map_err(|e| format!("LEX-ERROR {}", e.len()))?;
+        let program = incan::parser::parse(&tokens).map_err(|e| format!("PARSE-ERROR {}", e.len()))?;
+        if let Err(e) = incan::typechecker::check(&program) {
+            return Err(format!("REJECTED {}: {}", e.len(), e.iter().map(|x| x.message.clone()).collect::<Vec<_>>().join(" | ")));
+        }
+        incan::IrCodegen::new().try_generate(&program).map_err(|e| format!("CODEGEN-ERROR {e:?}"))
+    });
+    match r {
+        Ok(Ok(s)) => println!("RUST-BEGIN\n{s}\nRUST-END"),
+        Ok(Err(e)) => println!("{e}"),
+        Err(_) => println!("PANIC"),
+    }
+}
